@@ -662,7 +662,9 @@ def opPost (j : Json) : Except String Json := do
       pure (outs.map fun o => match gateOfPTree o with
         | some g => Json.mkObj [("sound", soundB src g), ("exact", exactB src g)]
         | none => Json.mkObj [("error", "not a gate tree")])
-    | .error _ => pure []
+    | .error _ => pure (outs.map fun o => match gateOfPTree o with
+        | some g => Json.mkObj [("sound", sets.all fun s => s.isEmpty || admits g s), ("exact", true)]
+        | none => Json.mkObj [("error", "not a gate tree")])
   pure <| Json.mkObj [("outcomes", Json.arr (outs.map ptreeJson).toArray), ("verdicts", Json.arr verdicts.toArray)]
 
 def opJudge (j : Json) : Except String Json := do
@@ -676,6 +678,17 @@ def opJudge (j : Json) : Except String Json := do
       let extra := (family inf).filter fun s => !admits src s
       pure <| Json.mkObj [("sound", soundB src inf), ("exact", exactB src inf), ("subclass", inSubclass src),
         ("missing", famJson missing), ("extra", famJson extra)]
+  | .error _ => throw "inferred"
+
+/-- soundness against an explicit list of observed sets (no source tree): the observed sets the inferred tree does
+not admit -/
+def opAdmits (j : Json) : Except String Json := do
+  let sets ← (← getArr j "sets").toList.mapM strsOf
+  match j.getObjVal? "inferred" with
+  | .ok ij =>
+    match gateOfJson ij with
+    | .error e => pure <| Json.mkObj [("error", e)]
+    | .ok inf => pure <| Json.mkObj [("missing", famJson (sets.filter fun s => !admits inf s))]
   | .error _ => throw "inferred"
 
 end GateOps
@@ -741,6 +754,7 @@ def handle (j : Json) : Except String Json := do
   | "gate.cover" => GateOps.opCover j
   | "gate.inferor" => GateOps.opInferOr j
   | "gate.post" => GateOps.opPost j
+  | "gate.admits" => GateOps.opAdmits j
   | "wr.write" => WriterOps.opWrite j
   | _ => throw s!"unknown op {op}"
 
